@@ -3,12 +3,14 @@ import GramModel.Parser
 import GramModel.Generated.Grammar
 import GramModel.Lemmas.Parser
 import GramModel.Lemmas.ParserSound
+import GramModel.Lemmas.Unambiguous
 
 /-!
 # C07 — the parser accepts exactly `grammar.y` and builds the tree it specifies
 
-PARTIAL.  Completeness w.r.t. the grammar and unambiguity of `grammar.y` are not proved; they are
-watched by enumeration (suite `parser`: an Earley recogniser over the grammar read from
+PARTIAL.  Unambiguity of `grammar.y` is proved in the last section (`C07_unambiguous`: at most one
+parse tree per segment and nonterminal).  Completeness w.r.t. the grammar is not proved; it (and,
+independently, unambiguity) is watched by enumeration (suite `parser`: an Earley recogniser over the grammar read from
 `/repo/grammar.y` must agree with the implementation on every accepted token sequence and find
 exactly one derivation; suite `programs`: the tree built for every generated sentence equals the
 generator's derivation).  Proved here: facts about the model parser `PModel` (which reproduces the
@@ -516,3 +518,51 @@ def C07_parser_steps_irregular_stmt : Prop :=
   (Generated.parserSteps.map (fun r => (PModel.ntOfFn r.1).map PModel.NT.idx)) = (List.range 36).map some
 theorem C07_parser_steps_irregular : C07_parser_steps_irregular_stmt := by
   unfold C07_parser_steps_irregular_stmt; decide
+
+/-! ## Unambiguity of `grammar.y` (the last clause of the property)
+
+In the form available here: `PModel.SegT toks nt a b t` is the tree-carrying version of the
+parse-shaped derivation relation `Seg` (one constructor per production of `grammar.y`, mapped into
+`Derives Generated.grammarProductions` above); `t` records the derivation (the production used at
+every node, its segment, its children).  Proof in `Lemmas/Unambiguous.lean`, by the *extension law*
+(`C07_extension_law`) for the eight nonterminals of the precedence tower. -/
+
+/-- The grammar assigns at most one parse tree to any segment of any token sequence, from any
+nonterminal. -/
+def C07_unambiguous_stmt : Prop :=
+  ∀ (toks : Array PTok) (nt : NT) (a b : Nat) (t₁ t₂ : Src),
+    SegT toks nt a b t₁ → SegT toks nt a b t₂ → t₁ = t₂
+theorem C07_unambiguous : C07_unambiguous_stmt :=
+  fun _ _ _ _ _ _ h1 h2 => PModel.unambiguous h1 h2
+
+/-- The extension law: of two segments with the same start derived from the same tower nonterminal
+the shorter one is followed by a token of the nonterminal's extension set `Unamb.ext` (never `)`,
+`}`, `then`, `else`, a terminator; for `atom` the set is empty, for `small_term` it is the first
+tokens of atoms, each level adds its own operators).  This is what makes every split point of every
+sequence production unique. -/
+def C07_extension_law_stmt : Prop :=
+  ∀ (toks : Array PTok) (nt : NT) (a b b' : Nat) (t t' : Src), nt ∈ Unamb.tower →
+    SegT toks nt a b t → SegT toks nt a b' t' → b < b' →
+    ∃ k, KAt toks b k ∧ Unamb.ext nt k = true
+theorem C07_extension_law : C07_extension_law_stmt :=
+  fun _ _ _ _ _ _ _ hA h1 h2 hlt => PModel.ext_law hA h1 h2 hlt
+
+/-- Atoms are prefix-free. -/
+def C07_atom_end_unique_stmt : Prop :=
+  ∀ (toks : Array PTok) (a b b' : Nat), Seg toks .atom a b → Seg toks .atom a b' → b = b'
+theorem C07_atom_end_unique : C07_atom_end_unique_stmt :=
+  fun _ _ _ _ h1 h2 => PModel.atom_end_unique h1 h2
+
+/-- The tree the parser builds for an accepted input (before re-association) is THE parse tree of
+the whole token sequence. -/
+def C07_accepted_unique_tree_stmt : Prop :=
+  ∀ (toks : Array PTok) (ctx : List Name) (t : RTm), parseModel toks ctx = .ok t →
+    ∃ r st, runParser toks = some (r, st) ∧ SegT toks .term 0 toks.size r.term ∧
+      ∀ t', SegT toks .term 0 toks.size t' → t' = r.term
+theorem C07_accepted_unique_tree : C07_accepted_unique_tree_stmt := by
+  intro toks ctx t h
+  obtain ⟨r, st, hr, hn, hce⟩ := C07_all_consumed toks ctx t h
+  have hs := runParser_spans hr hce
+  rw [hn] at hs
+  exact ⟨r, st, hr, hs, fun t' ht' => PModel.unambiguous ht' hs⟩
+
